@@ -233,6 +233,27 @@ def direct_oracle(ctx, c):
     return ctx.fail("no-verdict", "neither success nor a diagnostic was printed: %r" % (i.stdout[-200:],), rp())
 
 
+def deep_probes(ctx):
+    """nesting far beyond what any script uses: the parser is iterative, evaluation and drop recurse.
+    Run on the implementation only (the model's own recursion has no stack to exhaust)."""
+    srcs = {"deepcall": (PREAMBLE + "ipv4::udp::unicast(1.2.3.4:1,1.2.3.5:2," + "text::concat(" * 4000 + '"x"' + ")" * 4000 + ");\n").encode(),
+            "deepslash": (PREAMBLE + "let s = 1.2.3.4" + "/1" * 100000 + ";\n").encode()}
+    d, res = common.run_programs("c08deep", srcs, timeout=120)
+    for n, src in srcs.items():
+        ctx.count("corner:nest-deep")
+        c = Case()
+        c.name, c.src, c.files, c.gen, c.impl = n, src, {}, {"kind": "corner:nest-deep:" + n}, res[n]
+        c.text = src[:200].decode() + "..."
+        c.model = {"status": None, "kind": None, "loc": None, "pcap": None}
+        i = c.impl
+        if i.status in ("crash", "timeout"):
+            ctx.fail("abort:stack-exhaustion:nesting", "nesting depth %s: %s" % ("4000 calls" if n == "deepcall" else "100000 '/' operators",
+                     (i.kind or "")[:120]), {"program": "see 'generator'", "generator": "PREAMBLE + %s" % ("'text::concat(' * 4000" if n == "deepcall" else "'1.2.3.4' + '/1' * 100000"),
+                                             "observed": i.kind})
+        else:
+            direct_oracle(ctx, c)
+
+
 def batch_contract(ctx, wd):
     """several inputs on one command line: failures do not prevent the others; -k keeps; exit status"""
     good = PREAMBLE + "ipv4::udp::unicast(1.2.3.4:1,1.2.3.5:2,\"x\");\n"
@@ -323,6 +344,7 @@ def run(ctx):
         if not same:
             ctx.fail("outcome-differs", "impl %s @%s, model %s %s @%s" % (ic, c.impl.loc, m["status"], m["kind"], m["loc"]),
                      diff.replay_of(c, {"source_hex": c.src.hex()}), disagreement=True)
+    deep_probes(ctx)
     batch_contract(ctx, wd)
     ctx.dist["reached_interpreter"] = reach
     ctx.sample({"kind": cases[0].gen["kind"], "program": cases[0].text[-300:]})
